@@ -45,13 +45,17 @@ def _two_maps(prefix):
                      "(second map possibly built after the first was freed), repeated questions: each map answers from its own data")
 
 
-def _e2e(prefix, variants, timeout=2400):
+def _e2e(prefix, variants, timeout=2400, split=()):
     names = {0: "base", 1: "song-fields", 3: "song-fields+signature+anchors", 7: "song-fields+signature+anchors+player2"}
-    return [Ob(f"{prefix}.chart_e2e.{names.get(v, v)}", "CH", "harness.h_e2e", "chart_e2e", timeout, {"VF_E2E": v},
-               funcs=("chartparse.chart.Chart.from_file", "chartparse.chart.Chart._partition_lines_by_data_section",
-                      "chartparse.metadata.Metadata.from_chart_lines", "chartparse.sync.SyncTrack.from_chart_lines",
-                      "chartparse.globalevents.GlobalEventsTrack.from_chart_lines", "chartparse.instrument.InstrumentTrack.from_chart_lines"),
-               bounds="the whole real Chart.from_file on token lines (5 sections, 2 tracks, 2 tempo events, 2 notes, phrase, track/global events) with "
-                      "symbolic resolution, [Song] numbers, ticks, lengths and anchor values; every stored value and time against the statement "
-                      "(times: the stand-in clock's exact tempo-map time; HOPO rule with the [Song] resolution); [Song] first or last")
-            for v in variants]
+    out = []
+    for v in variants:
+        for sl in ((0, 1) if v in split else (-1,)):
+            out.append(Ob(f"{prefix}.chart_e2e.{names.get(v, v)}" + ("" if sl < 0 else (".song-first", ".song-last")[sl]), "CH", "harness.h_e2e", "chart_e2e", timeout,
+                          {"VF_E2E": v, "VF_E2E_SL": sl},
+                          funcs=("chartparse.chart.Chart.from_file", "chartparse.chart.Chart._partition_lines_by_data_section",
+                                 "chartparse.metadata.Metadata.from_chart_lines", "chartparse.sync.SyncTrack.from_chart_lines",
+                                 "chartparse.globalevents.GlobalEventsTrack.from_chart_lines", "chartparse.instrument.InstrumentTrack.from_chart_lines"),
+                          bounds="the whole real Chart.from_file on token lines (5 sections, 2 tracks, 2 tempo events, 2 notes, phrase, track/global events) with "
+                                 "symbolic resolution, [Song] numbers, ticks, lengths and anchor values; every stored value and time against the statement "
+                                 "(times: the stand-in clock's exact tempo-map time; HOPO rule with the [Song] resolution); [Song] first or last"))
+    return out
